@@ -11,7 +11,7 @@
 //!     abstract value (`shared/c13_gamma.rs`),
 //!   * a load/store for which the analysis transfer function reports a certain
 //!     NULL dereference (no successor state) does not complete.
-//! Runs stop (and prove nothing further) when an access touches (-1024,1024).
+//! Runs stop (and prove nothing further) at an access to an address in (-1024,1024).
 
 #[path = "../shared/c13_gamma.rs"]
 mod c13_gamma;
@@ -256,11 +256,28 @@ fn value_alphabet(v: &Variable) -> Vec<u128> {
 
 // ---------------------------------------------------------------- concrete runs and the oracle
 
-fn touches_null_range(addr: u64, size: u32) -> bool {
-    let lo = addr as i64 as i128;
-    let hi = lo + size as i128 - 1;
-    // wrap-around of the address space: hi beyond i64::MAX continues at i64::MIN, far from the range
-    hi > -1024 && lo < 1024
+/// "accesses to addresses in (-1024,1024) abort the run": the address operand of the access,
+/// read as a signed number, lies strictly between -1024 and 1024.
+fn in_null_range(addr: u64) -> bool {
+    let a = addr as i64;
+    a > -1024 && a < 1024
+}
+
+/// Is the value of `e` an *integer computed by the program*, as opposed to a value that can be a
+/// pointer into memory that exists at run time (the stack frame, objects reachable from the
+/// entry state)? Pointer-capable: entry values of registers, contents of memory the program has
+/// not written, and copies / `+- integer` of pointer-capable values. Everything else (constants,
+/// masks, products, comparison results, ...) is an integer. The programs have an empty memory
+/// image, so an integer used as an address points outside everything that is known to exist.
+fn is_integer(e: &Expression, int_regs: &BTreeMap<Variable, bool>) -> bool {
+    match e {
+        Expression::Const(_) => true,
+        Expression::Var(v) => int_regs.get(v).copied().unwrap_or(false),
+        Expression::BinOp { op: BinOpType::IntAdd, lhs, rhs } => is_integer(lhs, int_regs) && is_integer(rhs, int_regs),
+        Expression::BinOp { op: BinOpType::IntSub, lhs, rhs } => is_integer(lhs, int_regs) && is_integer(rhs, int_regs),
+        Expression::Unknown { .. } => false,
+        _ => true,
+    }
 }
 
 fn cond_class(e: &Expression) -> String {
@@ -310,6 +327,9 @@ fn run_one(project: &Project, sub: &Term<Sub>, an: &Analysis, init: &[(Variable,
     let entry = Entry { machine: &m0, fn_tid: &sub.tid };
     let init_render = || -> Vec<String> { init.iter().map(|(v, x)| format!("{}={:#x}", v.name, x)).collect() };
     let mut producers: BTreeMap<Variable, String> = BTreeMap::new();
+    // "integer" provenance (see `is_integer`): registers and memory bytes written by the program
+    let mut int_regs: BTreeMap<Variable, bool> = BTreeMap::new();
+    let mut int_mem: BTreeMap<u64, bool> = BTreeMap::new();
     let mut edge = "function-entry".to_string();
     let mut path: Vec<String> = Vec::new();
     let Some(mut cur) = sub.term.blocks.first() else {
@@ -333,7 +353,11 @@ fn run_one(project: &Project, sub: &Term<Sub>, an: &Analysis, init: &[(Variable,
             let v = m.read_var(var);
             st.register_checks += 1;
             match member(abs, var, v, &entry) {
-                Member::Yes => st.decided_yes += 1,
+                Member::Yes => {
+                    if *var != project.stack_pointer_register {
+                        st.decided_yes += 1
+                    }
+                }
                 Member::YesByTop => st.by_top_or_skipped += 1,
                 Member::YesByUngroundable => st.ungroundable += 1,
                 Member::No => {
@@ -349,6 +373,12 @@ fn run_one(project: &Project, sub: &Term<Sub>, an: &Analysis, init: &[(Variable,
         }
         // defs
         for (i, def) in cur.term.defs.iter().enumerate() {
+            // provenance of the address and of the value that is written (evaluated before the def executes)
+            let (addr_is_integer, value_is_integer) = match &def.term {
+                Def::Assign { value, .. } => (false, is_integer(value, &int_regs)),
+                Def::Load { address, .. } => (is_integer(address, &int_regs), false),
+                Def::Store { address, value } => (is_integer(address, &int_regs), is_integer(value, &int_regs)),
+            };
             let mut ev = Vec::new();
             match m.exec_def(&def.term, &mut ev) {
                 Ok(()) => (),
@@ -358,14 +388,27 @@ fn run_one(project: &Project, sub: &Term<Sub>, an: &Analysis, init: &[(Variable,
                 }
                 Err(Abort::IllTyped(s)) => mcx::machinery(&format!("generator produced an ill-typed program: {s}\n{}", render(project))),
             }
+            let mut loaded_is_integer = false;
             for e in &ev {
-                let (a, n) = match e {
-                    Event::Load { addr, size, .. } | Event::Store { addr, size, .. } => (*addr, *size),
+                let (a, n, is_store) = match e {
+                    Event::Load { addr, size, .. } => (*addr, *size, false),
+                    Event::Store { addr, size, .. } => (*addr, *size, true),
                     _ => continue,
                 };
-                if touches_null_range(a, n) {
+                if in_null_range(a) {
                     st.end = "aborted-null-range";
                     return None;
+                }
+                if addr_is_integer {
+                    st.end = "aborted-integer-used-as-address";
+                    return None;
+                }
+                if is_store {
+                    for k in 0..n as u64 {
+                        int_mem.insert(a.wrapping_add(k), value_is_integer);
+                    }
+                } else {
+                    loaded_is_integer = (0..n as u64).all(|k| int_mem.get(&a.wrapping_add(k)).copied().unwrap_or(false));
                 }
             }
             if view.null_def == Some(i) {
@@ -375,8 +418,13 @@ fn run_one(project: &Project, sub: &Term<Sub>, an: &Analysis, init: &[(Variable,
                 });
             }
             match &def.term {
-                Def::Assign { var, .. } | Def::Load { var, .. } => {
+                Def::Assign { var, .. } => {
                     producers.insert(var.clone(), producer_class(&def.term));
+                    int_regs.insert(var.clone(), value_is_integer);
+                }
+                Def::Load { var, .. } => {
+                    producers.insert(var.clone(), producer_class(&def.term));
+                    int_regs.insert(var.clone(), loaded_is_integer);
                 }
                 Def::Store { .. } => (),
             }
@@ -532,7 +580,7 @@ fn check_program(ctx: &Ctx, label: &str, raw: &Project, config: &serde_json::Val
     ctx.stat("concrete_runs", ends.values().sum());
     ctx.stat("block_visits_checked", st.block_visits);
     ctx.stat("register_checks_against_non_top_values", st.register_checks);
-    ctx.stat("register_checks_decided_by_known_component", st.decided_yes);
+    ctx.stat("register_checks_decided_by_interval_or_grounded_id_not_sp", st.decided_yes);
     ctx.stat("register_checks_ungroundable_identifier", st.ungroundable);
     for (k, v) in &ends {
         ctx.stat(&format!("runs_end_{k}"), *v);
@@ -621,12 +669,13 @@ fn main() {
                "initial_states": "every combination of {0,1,5,1023,1024,-1,-1024,large pointer} for each 8-byte register whose entry value can be read, {0,1} for flags; RSP = 0x7fff0000", "block_fuel": FUEL}),
     );
     ctx.assume("entry stack pointer is 16-byte aligned; flags are 0/1; memory not written by the program holds a fixed pseudo-random byte pattern");
-    ctx.assume("runs stop at the first access that touches an address in (-1024,1024) (any byte of the access) and prove nothing beyond that point");
+    ctx.assume("runs stop at the first load/store whose address (as a signed number) lies in (-1024,1024) and prove nothing beyond that point");
     ctx.assume("programs for which PointerInference reports 'Fixpoint did not stabilize' are skipped (counted)");
+    ctx.assume("the programs have an empty memory image; a load/store whose address is an integer computed by the program (a constant, or the result of an operation other than copy / +- integer applied to an entry value or to unwritten memory) lies outside the stack frame and every object reachable from the entry state: the statement does not say what such an access does, the analysis treats it as not completing; such runs stop and prove nothing (counted as runs_end_aborted-integer-used-as-address)");
     ctx.assume("the alphabet has no stores through non-stack pointers, so parameter objects cannot alias each other or the stack frame");
     ctx.assume("abstract identifiers that cannot be grounded in the entry state count as 'anything' (counted)");
     ctx.finish(
-        "one case per program (skeleton x slot forms x condition forms); each is normalized, analysed (function signatures + pointer inference) and run from every initial state; at every reached block start every register is compared with the abstract value; non-trivial = at least one membership was decided by an interval or a grounded identifier",
+        "one case per program (skeleton x slot forms x condition forms); each is normalized, analysed (function signatures + pointer inference) and run from every initial state; at every reached block start every register is compared with the abstract value; non-trivial = at least one membership of a register other than the stack pointer was decided by an interval or a grounded identifier",
         true,
     );
 }
